@@ -199,9 +199,11 @@ class C06(Check):
         "S9": "tuple assignment evaluates all right-hand sides before binding any target",
         "S12": "numbers only: the value of a KNOWN_FNS hit is returned through sympy.Float(..), which refuses anything that is not a number - or else "
                "the table holds no entry whose sympy counterpart equals the Python function on numbers only (cbrt, atan2, gcd, lcm, trunc)",
+        "S14": "merge of two fall-through branches: a name bound in both becomes Piecewise((if-value, condition), (else-value, True)) unless the values "
+               "are identical; a name bound in only one of them is dropped (using it later fails instead of silently taking one branch's value)",
         "S13": "augmented assignment, where handled, is `target = target <op> value` with the OLD value of the target as the LEFT operand",
     }
-    floors = {"S1": 6, "S2": 3, "S3": 2, "S4": 1, "S5": 2, "S6": 1, "S7": 60, "S8": 8, "S9": 1, "S10": 3, "S11": 12, "S12": 1, "S13": 1}
+    floors = {"S1": 6, "S2": 3, "S3": 2, "S4": 1, "S5": 2, "S6": 1, "S7": 60, "S8": 8, "S9": 1, "S10": 3, "S11": 12, "S12": 1, "S13": 1, "S14": 1}
     decided = [
         "constructs outside the supported subset make the translation fail visibly instead of being skipped",
         "conditionals: branches cannot see each other's assignments; code after an if/else is applied to every branch",
@@ -249,6 +251,7 @@ class C06(Check):
         self.s7(mod)
         self.s12(mod)
         self.s13(mod, wname, wfn)
+        self.s14(mod, wname, wfn)
         self.s8(mod, entry)
         self.s10(mod)
         self.s11(mod)
@@ -453,7 +456,25 @@ class C06(Check):
                           "assignment in one branch is visible in the other and in the code after the conditional",
                           witness="if x > 0: y = 2*x / else: y = x / return y + 1  ->  Piecewise((2x, x>0), (x, True)) or mixes the branches' y")
         body_args = [norm(c.args[0]) for c in rec]
-        cont = all(("rest" in a or "idx + 1" in a or "remaining" in a) for a in body_args)
+        # what follows a branch body is exactly the statements after the conditional: <statements>[<index of the conditional> + 1:]
+        from ..core import expand_locals, single_defs
+
+        defs5 = single_defs(wfn, anywhere=True)
+        enum = [l for l in ast.walk(wfn) if isinstance(l, ast.For) and isinstance(l.iter, ast.Call) and norm(l.iter.func) == "enumerate" and isinstance(l.target, ast.Tuple) and len(l.target.elts) == 2]
+        idxv = norm(enum[0].target.elts[0]) if enum else "idx"
+        seqv = norm(enum[0].iter.args[0]) if enum and enum[0].iter.args else "body"
+        tails = {f"{seqv}[{idxv} + 1:]", f"{seqv}[1 + {idxv}:]", f"list({seqv}[{idxv} + 1:])"}
+
+        def continues(call):
+            a = call.args[0]
+            parts = []
+            if isinstance(a, (ast.List, ast.Tuple)):
+                parts = [x.value if isinstance(x, ast.Starred) else x for x in a.elts]
+            elif isinstance(a, ast.BinOp) and isinstance(a.op, ast.Add):
+                parts = [a.left, a.right]
+            return bool(parts) and norm(expand_locals(parts[-1], defs5, depth=2)) in tails
+
+        cont = all(continues(c) for c in rec)
         if cont:
             self.holds("S5", MOD, wname, "branches-continue-into-rest", rec[0], f"branch bodies are translated together with the statements after the conditional: {body_args}")
         else:
@@ -531,6 +552,136 @@ class C06(Check):
                     self.violated("S7", MOD, "KNOWN_CONSTANTS", f"KNOWN_CONSTANTS[{key}]", k, f"{key} is mapped to {val} instead of {REFERENCE_CONSTANTS[key]}")
             else:
                 self.info("S7", MOD, "KNOWN_CONSTANTS", f"KNOWN_CONSTANTS[{key}]", k, f"unvetted -> {val}")
+
+    # ---- S14
+    def s14(self, mod, wname, wfn) -> None:
+        """When neither branch of a conditional returns, a name bound in both is their Piecewise (or the common value), a name bound in only one
+        is dropped."""
+        from ..interp import Sym, SymInterp
+
+        loops = [n for n in ast.walk(wfn) if isinstance(n, ast.For) and isinstance(n.target, ast.Name) and "_if" in norm(n.iter) and "_else" in norm(n.iter) and ".symbols" in norm(n.iter)]
+        if not loops:
+            self.undecided_ob("S14", MOD, wname, "branch-merge", wfn, "the loop merging the assignments of two fall-through branches was not found")
+            return
+        lp = loops[0]
+        var = lp.target.id
+
+        class I1(SymInterp):
+            loop_unroll = 1
+
+        o = I1().block(lp.body, [Sym()])
+        paths = list(o.normal) + list(o.continues)
+        import re as _re
+
+        probs = []
+        seen = {"one": 0, "same": 0, "differ": 0}
+        for st in paths:
+            stores = [(e[1], e[2]) for e in st.events if e[0] == "store" and e[1].endswith(f".symbols[{var}]") and not e[1].startswith(("ctx_if", "ctx_else"))]
+            gets = sorted({m_ for c, _ in st.conds for m_ in _re.findall(r"(\w+)\.symbols\.get\(" + var + r"\)", c)})
+            one_missing = [v for c, v in st.conds if "is None" in c and ".symbols.get(" in c]
+            same = [v for c, v in st.conds if _re.match(r"^\w+\.symbols\.get\(\w+\) == \w+\.symbols\.get\(\w+\)$", c)] + \
+                   [not v for c, v in st.conds if _re.match(r"^\w+\.symbols\.get\(\w+\) != \w+\.symbols\.get\(\w+\)$", c)]
+            if one_missing and one_missing[0]:
+                seen["one"] += 1
+                if stores:
+                    probs.append(f"a name bound in only one branch is kept as `{stores[0][1][:50]}`")
+                continue
+            if same and same[0]:
+                seen["same"] += 1
+                if len(stores) != 1 or not _re.match(r"^ctx_(if|else)\.symbols\.get\(" + var + r"\)$", stores[0][1]):
+                    probs.append("a name with the same value in both branches does not keep that value")
+                continue
+            seen["differ"] += 1
+            want = f"_piecewise(ctx_if.symbols.get({var}), condition, ctx_else.symbols.get({var}))"
+            alt = f"sympy.Piecewise((ctx_if.symbols.get({var}), condition), (ctx_else.symbols.get({var}), True))"
+            if len(stores) != 1 or stores[0][1] not in (want, alt):
+                probs.append(f"a name with different values in the two branches becomes `{stores[0][1][:70] if stores else 'nothing'}` instead of Piecewise((if-value, condition), (else-value, True))")
+        if not seen["differ"]:
+            probs.append("no path merges different values of the two branches")
+        # what the conditional as a whole yields: both branches fall through -> falls through (after the merge); both return -> Piecewise of the
+        # two values; exactly one returns -> refused
+        import itertools
+
+        sc = Scope(wfn)
+        outer = None
+        for iff, fld in sc.enclosing_with_field(lp, ast.If):
+            if "_NO_RETURN" in norm(iff.test):
+                outer = iff
+        host = None
+        if outer is not None:
+            for p_, fld, child in sc.ancestors(outer):
+                body_ = getattr(p_, fld, None)
+                if isinstance(body_, list) and outer in body_:
+                    host = body_[body_.index(outer):]
+                    break
+        if host is None:
+            self.undecided_ob("S14", MOD, wname, "conditional-value", lp, "the statements deciding what a conditional yields were not found")
+        else:
+            o2 = I1().block(host, [Sym()])
+            A, B = "if_expr is _NO_RETURN", "else_expr is _NO_RETURN"
+
+            def holds_(cond_txt, a, b):
+                try:
+                    t = ast.parse(cond_txt, mode="eval").body
+                except SyntaxError:
+                    return None
+
+                def ev(e):
+                    tx = norm(e)
+                    if tx == A:
+                        return a
+                    if tx == B:
+                        return b
+                    if tx in ("if_expr is not _NO_RETURN",):
+                        return not a
+                    if tx in ("else_expr is not _NO_RETURN",):
+                        return not b
+                    if isinstance(e, ast.BoolOp):
+                        vals = [ev(x) for x in e.values]
+                        if None in vals:
+                            return None
+                        return all(vals) if isinstance(e.op, ast.And) else any(vals)
+                    if isinstance(e, ast.UnaryOp) and isinstance(e.op, ast.Not):
+                        v = ev(e.operand)
+                        return None if v is None else not v
+                    return None
+                return ev(t)
+
+            cprobs = []
+            n_ret = 0
+            for st, _ in o2.returns:
+                ret = next((e[1] for e in reversed(st.events) if e[0] == "return"), "")
+                if ret == "None":
+                    continue
+                n_ret += 1
+                feas = []
+                for a, b in itertools.product((True, False), repeat=2):
+                    ok = True
+                    for c, v in st.conds:
+                        h = holds_(c, a, b)
+                        if h is not None and h != v:
+                            ok = False
+                    if ok:
+                        feas.append((a, b))
+                for a, b in feas:
+                    if a and b:
+                        if ret != "_NO_RETURN":
+                            cprobs.append(f"both branches fall through but the conditional yields `{ret[:50]}`")
+                    elif not a and not b:
+                        if ret.replace(" ", "") not in ("_piecewise(if_expr,condition,else_expr)", "sympy.Piecewise((if_expr,condition),(else_expr,True))"):
+                            cprobs.append(f"both branches return but the conditional yields `{ret[:60]}` instead of Piecewise((if-value, condition), (else-value, True))")
+                    else:
+                        cprobs.append(f"one branch returns and the other falls through, and the conditional still yields `{ret[:50]}`: one of the two outcomes is lost")
+            if cprobs or not n_ret:
+                self.violated("S14", MOD, wname, "conditional-value", outer, sorted(set(cprobs))[0] if cprobs else "no path yields a value for a conditional",
+                              witness="def f(x):\n  if x > 1: return x\n  else: y = 2 * x\n  return y    -- translated as if the first branch did not exist")
+            else:
+                self.holds("S14", MOD, wname, "conditional-value", outer, "both fall through -> merged and falls through; both return -> Piecewise; mixed -> refused")
+        if probs:
+            self.violated("S14", MOD, wname, "branch-merge", lp, sorted(set(probs))[0],
+                          witness="def f(x): \n  if x > 1: y = x \n  else: y = 2 * x \n  return y + 1   translates with y taken from one branch only")
+        else:
+            self.holds("S14", MOD, wname, "branch-merge", lp, "bound in one branch -> dropped; same value -> kept; different values -> Piecewise((if-value, condition), (else-value, True))")
 
     # ---- S12
     def s12(self, mod) -> None:
